@@ -205,21 +205,34 @@ func toGen(v any) gen.Node {
 
 // Frag of a sub-path / path AST.
 type Frag struct {
-	F  string  `json:"f"`
-	K  []int   `json:"k,omitempty"`  // child key
-	I  int     `json:"i"`            // nth
-	B  bool    `json:"b,omitempty"`  // wildcard written [*]
-	U  []UItem `json:"u,omitempty"`  // union members
-	S  []int   `json:"s,omitempty"`  // slice arguments as given to the constructor
-	E  *AST    `json:"e,omitempty"`  // filter equation
-	Br bool    `json:"br,omitempty"` // (unused by the model) bracket marker
+	F string  `json:"f"`
+	K []int   `json:"k,omitempty"` // child key
+	I int     `json:"i"`           // nth
+	B bool    `json:"b,omitempty"` // wildcard written [*]
+	U []UItem `json:"u,omitempty"` // union members
+	S []int   `json:"s,omitempty"` // slice arguments as given to the constructor
+	E *AST    `json:"e,omitempty"` // filter equation
+	// integers beyond +-2^30 travel as decimal text (TLC integers are 32 bit): then i / s hold only the signs
+	Big string   `json:"big,omitempty"`
+	BS  []string `json:"bs,omitempty"`
+	Br  bool     `json:"br,omitempty"` // (unused by the model) bracket marker
 }
 
 // UItem is a union member: a key or an index.
+func small(i int) bool { return -(1<<30) <= i && i <= 1<<30 }
+
+func sign(i int) int {
+	if i < 0 {
+		return -1
+	}
+	return 1
+}
+
 type UItem struct {
-	K  []int `json:"k,omitempty"`
-	I  int   `json:"i"`
-	Is bool  `json:"is"` // true: key (string), false: index
+	Big string `json:"big,omitempty"`
+	K   []int  `json:"k,omitempty"`
+	I   int    `json:"i"`
+	Is  bool   `json:"is"` // true: key (string), false: index
 }
 
 // AST of an equation, see spec/Script.tla.
@@ -251,7 +264,12 @@ func appendFrags(x jp.Expr, fr []Frag) jp.Expr {
 		case "child":
 			x = x.C(bstr(f.K))
 		case "nth":
-			x = x.N(f.I)
+			n := f.I
+			if f.Big != "" {
+				v, _ := strconv.ParseInt(f.Big, 10, 64)
+				n = int(v)
+			}
+			x = x.N(n)
 		case "wild":
 			x = x.W()
 		case "desc":
@@ -261,13 +279,24 @@ func appendFrags(x jp.Expr, fr []Frag) jp.Expr {
 			for i, u := range f.U {
 				if u.Is {
 					args[i] = bstr(u.K)
+				} else if u.Big != "" {
+					v, _ := strconv.ParseInt(u.Big, 10, 64)
+					args[i] = int(v)
 				} else {
 					args[i] = u.I
 				}
 			}
 			x = x.U(args...)
 		case "slice":
-			x = x.S(f.S[0], f.S[1:]...)
+			ss := f.S
+			if f.BS != nil {
+				ss = make([]int, len(f.BS))
+				for i, t := range f.BS {
+					v, _ := strconv.ParseInt(t, 10, 64)
+					ss[i] = int(v)
+				}
+			}
+			x = x.S(ss[0], ss[1:]...)
 		case "filter":
 			x = x.F(f.E.Build())
 		case "root":
@@ -464,6 +493,12 @@ func (f Frag) jsonValue() any {
 		}
 		return map[string]any{"f": f.F, "k": k}
 	case "nth":
+		if f.Big != "" {
+			return map[string]any{"f": f.F, "i": f.I, "big": f.Big}
+		}
+		if !small(f.I) {
+			return map[string]any{"f": f.F, "i": sign(f.I), "big": strconv.Itoa(f.I)}
+		}
 		return map[string]any{"f": f.F, "i": f.I}
 	case "union":
 		us := make([]any, len(f.U))
@@ -474,12 +509,33 @@ func (f Frag) jsonValue() any {
 					k = []int{}
 				}
 				us[i] = map[string]any{"is": true, "k": k}
+			} else if u.Big != "" {
+				us[i] = map[string]any{"is": false, "i": u.I, "big": u.Big}
+			} else if !small(u.I) {
+				us[i] = map[string]any{"is": false, "i": sign(u.I), "big": strconv.Itoa(u.I)}
 			} else {
 				us[i] = map[string]any{"is": false, "i": u.I}
 			}
 		}
 		return map[string]any{"f": f.F, "u": us}
 	case "slice":
+		if f.BS != nil {
+			return map[string]any{"f": f.F, "s": f.S, "bs": f.BS}
+		}
+		for _, v := range f.S {
+			if !small(v) && v != 2147483647 {
+				bs := make([]string, len(f.S))
+				sg := make([]int, len(f.S))
+				for i, w := range f.S {
+					bs[i] = strconv.Itoa(w)
+					sg[i] = w
+					if !small(w) {
+						sg[i] = sign(w)
+					}
+				}
+				return map[string]any{"f": f.F, "s": sg, "bs": bs}
+			}
+		}
 		return map[string]any{"f": f.F, "s": f.S}
 	case "filter":
 		return map[string]any{"f": f.F, "e": f.E}
